@@ -234,6 +234,16 @@ Reopen(r, loaders) ==
   /\ res' = [kind |-> "reopen", r |-> r]
   /\ UNCHANGED <<commits, nops, ref, trk, hub>>
 
+(* The replica witnesses an edit time more than MaxHop above its own (it reads a bug that was created on a replica that far ahead:
+   a root commit may carry any edit time, only the hops between a commit and its parents are bounded).  Nothing is wrong with that
+   by itself; but the next commit the replica writes on an older bug sits more than MaxHop above its parent, and ReadOK refuses it:
+   the design lets a repository write what it cannot read back (known finding far-clock of C05).  The action is left out of the
+   bounded models that must pass; MC_GitBug_leap.cfg includes it and must report AllReadable violated. *)
+ClockLeap(r) ==
+  /\ clk' = [clk EXCEPT ![r] = WitnessClk(clk[r], clk[r].e + MaxHop + 1, clk[r].c)]
+  /\ res' = [kind |-> "leap", r |-> r]
+  /\ UNCHANGED <<commits, nops, ref, trk, hub>>
+
 (* which: 0 = both clock files, 1 = the edit clock only, 2 = the creation clock only *)
 DeleteClocks(r, which) ==
   /\ clk[r].de # Missing \/ clk[r].dc # Missing
